@@ -30,6 +30,7 @@ func checkC10(p *Program, r *Report) {
 		"R2 keys are hashable before use. R3 failure leaves the container unchanged. R4 reads and writes address the same element. R5 missing key reads nil, unknown field is an error. " +
 		"R6 a container that had to be replaced (append at len, nil map, rebuilt string) is assigned back to the node's own container operand: at every call of the assignment dispatcher in the element/member write handlers the expression cell holds exactly that operand.")
 	r.Assume("that every in-range operation returns exactly the addressed element for every index value, storage sharing of 3-index slices and automatic growth are reflect's and are not decided; a missing bounds guard still yields an error through the boundary recover of C01")
+	treeLiteralsNotAddressable(p, r, "C10.R11")
 	m, err := buildVMModel(p)
 	if err != nil {
 		r.Undecided("C10.R1", "model", "vm", err.Error())
